@@ -40,10 +40,18 @@ def setup(lib):
             m.setup(lib)
 
 
+WIDTH_SPELLING = [0]
+
+
 def under_width(dt, f):
     from npstructures.raggedshape import ViewBase
     old = ViewBase._dtype
-    ViewBase.set_dtype(dt)
+    spelled = dt
+    if dt is np.int32:
+        # the 32-bit width as the type object or as the equivalent dtype object, alternating from case to case
+        WIDTH_SPELLING[0] += 1
+        spelled = np.int32 if WIDTH_SPELLING[0] % 2 else np.dtype("int32")
+    ViewBase.set_dtype(spelled)
     try:
         if dt is np.int32:
             probe = CTX.lib.RaggedArray(np.arange(3), [1, 2])
